@@ -61,9 +61,16 @@ var Heartbeat atomic.Int64
 // WatchdogQuiet is how long the heartbeat may stand still.
 var WatchdogQuiet = 60 * time.Second
 
-// OnStuck, if set, is called by the watchdog before it gives up; it returns
-// true if it handled the situation (for example reported a deadlock verdict).
-var OnStuck func(dump []Goroutine) bool
+// Stuck, if set, is called by the watchdog when the heartbeat has stood still:
+// an engine whose code under test can deadlock returns the finding (with the
+// case that was running and its trace) if the goroutine dump proves one; the
+// worker then records it, writes the replay file and exits, because a
+// deadlocked bubble can never be left.  A nil finding means "harness trouble".
+var Stuck func(dump []Goroutine) (*Found, *Case, []string)
+
+// Describe, if set, tells what the engine was doing (for harness-trouble
+// reports; never part of a verdict).
+var Describe func() string
 
 func startWatchdog(j *Job, res *Result) {
 	go func() {
@@ -80,21 +87,51 @@ func startWatchdog(j *Job, res *Result) {
 				continue
 			}
 			dump := Goroutines()
-			if OnStuck != nil && OnStuck(dump) {
-				lastMove = time.Now()
-				continue
+			if Stuck != nil {
+				if f, c, tr := Stuck(dump); f != nil {
+					fatal(j, res, f, c, tr)
+				}
 			}
 			var sb strings.Builder
 			for _, g := range dump {
 				sb.WriteString(g.Stack)
 				sb.WriteString("\n\n")
 			}
-			res.Error = "watchdog: no progress for " + WatchdogQuiet.String() + "\n" + sb.String()
+			res.Error = "watchdog: no progress for " + WatchdogQuiet.String() + "\n"
+			if Describe != nil {
+				res.Error += Describe() + "\n"
+			}
+			res.Error += sb.String()
 			_ = SaveJSON(j.Out, res)
 			fmt.Fprintln(os.Stderr, res.Error)
 			os.Exit(2)
 		}
 	}()
+}
+
+// fatal records a violation that leaves the process unusable and exits.
+func fatal(j *Job, res *Result, f *Found, c *Case, trace []string) {
+	v := Violation{Property: f.Property, Invariant: f.Invariant, Signature: f.Signature, Message: f.Message, Seed: j.Seed, Run: res.Runs, Fatal: true}
+	if j.Mode == "replay" {
+		v.Replay = j.Replay
+		res.Reproduced = true
+	} else if c != nil {
+		rp := Replay{Property: f.Property, Engine: res.Engine, Invariant: f.Invariant, Signature: f.Signature, Message: f.Message, Seed: j.Seed, Trace: clip(trace, 400)}
+		rp.Case, _ = json.Marshal(c)
+		_ = os.MkdirAll(j.ReplayDir, 0o755)
+		path := filepath.Join(j.ReplayDir, fmt.Sprintf("%s-%s-%d-w%d-r%d.json", f.Property, sanitize(f.Invariant), j.Seed, j.Worker, res.Runs))
+		if err := SaveJSON(path, &rp); err == nil {
+			v.Replay = path
+		}
+	}
+	if f.Property == j.Property || j.Mode == "replay" {
+		res.Violations = append(res.Violations, v)
+	} else {
+		res.Other[f.Property+"/"+f.Invariant]++
+	}
+	res.Notes = append(res.Notes, clip(trace, 200)...)
+	_ = SaveJSON(j.Out, res)
+	os.Exit(0)
 }
 
 // WorkerMain is the body of every worker test binary.
